@@ -21,6 +21,7 @@ import numpy as np
 
 from vf import lops
 from vf.monitors import STATE
+from vf.oracles.algebra import Spec
 from vf.common import Plan, crandn, held, violated, inconclusive, rng_for, nrm, pick
 
 SPEC = {
@@ -114,12 +115,16 @@ def run_lin(case):
         STATE.peak = 0.0
         Ax, Ay = np.asarray(A(x)), np.asarray(A(y))
         peak = STATE.peak
+        rnd = 0.0
+        if "parts" in desc or "A" in desc:
+            rnd = 1e13 * Spec(lops.build, lops.scalar_value).noise(desc, x + y)[1]
         worst = 0.0
         for a in (1j, complex(rng.standard_normal(), rng.standard_normal())):
             lhs = np.asarray(A(a * x + y))
             rhs = a * Ax + Ay
             checks += 1
-            sc = abs(a) * nrm(Ax) + nrm(Ay) + 1e-3 * (1 + abs(a)) * max(nrm(x), nrm(y), peak)
+            sc = abs(a) * nrm(Ax) + nrm(Ay) + 1e-3 * (1 + abs(a)) * max(nrm(x), nrm(y), peak) \
+                + (1 + abs(a)) * rnd
             e = nrm(lhs - rhs) / sc if sc > 0 else nrm(lhs - rhs)
             worst = max(worst, e)
             if not e <= tol:
